@@ -1,6 +1,7 @@
 package main
 
 import (
+	"sync"
 	"strings"
 	stdx509 "crypto/x509"
 	"crypto/x509/pkix"
@@ -274,6 +275,51 @@ func init() {
 			if again := util.IsIANAReserved(asked[i].ip); again != asked[i].got {
 				out.Violate("C19|address-answer-changes:"+asked[i].ip.String(), fmt.Sprintf("IsIANAReserved(%s) was %v the first time and %v when asked again after other addresses", asked[i].ip, asked[i].got, again), asked[i].ip.String(), asked[i].got, again)
 			}
+		}
+		// ... and whoever else is asking at the same time: the same questions from sixteen goroutines, each walking the
+		// addresses in its own order, get the answers they got alone
+		{
+			var wg sync.WaitGroup
+			var mu sync.Mutex
+			var problems []string
+			rounds := 3
+			if tier() == "thorough" {
+				rounds = 30
+			}
+			for w := 0; w < 16; w++ {
+				wg.Add(1)
+				go func(id int) {
+					defer wg.Done()
+					defer func() {
+						if pv := recover(); pv != nil {
+							mu.Lock()
+							problems = append(problems, fmt.Sprintf("panic: %v", pv))
+							mu.Unlock()
+						}
+					}()
+					n := len(asked)
+					for r := 0; r < rounds; r++ {
+						for k := 0; k < n; k++ {
+							a := asked[(k*(2*id+1)+id*977)%n]
+							got := util.IsIANAReserved(a.ip)
+							w2 := 8 * len(a.ip)
+							gotN := util.IntersectsIANAReserved(net.IPNet{IP: a.ip, Mask: net.CIDRMask(w2, w2)})
+							if got != a.got || gotN != a.got {
+								mu.Lock()
+								if len(problems) < 6 {
+									problems = append(problems, fmt.Sprintf("%s: reserved = %v / single-address network intersects = %v while other goroutines classify addresses, %v alone", a.ip, got, gotN, a.got))
+								}
+								mu.Unlock()
+							}
+						}
+					}
+				}(w)
+			}
+			wg.Wait()
+			for _, pr := range problems {
+				out.Violate("C19|concurrent-answer-differs", pr, map[string]interface{}{"goroutines": 16, "addresses": len(asked)}, nil, nil)
+			}
+			out.Stats["concurrent_address_questions"] = 16 * rounds * len(asked) * 2
 		}
 		// the lints on real certificates (SAN iPAddress, CN, permitted name constraints)
 		g := lint.GlobalRegistry()
